@@ -187,7 +187,7 @@ def mirror (e : Env) (toks : List String) (pre : World) : Env :=
     if op == "pt.leaf" || op == "pt.leafn" then { e with aw := { e.aw with nP := e.aw.nP + 1 } }
     else if op == "ex.leaf" then { e with aw := { e.aw with nE := e.aw.nE + 1 } }
     else if op.startsWith "step." || op == "fn.addpoint" || op == "part.block" || op == "class.set" || op == "solve.collect"
-         || op == "solve.ok" || op == "solve.fail" then { e with awOk := false }
+         || op == "solve.ok" || op == "solve.okp" || op == "solve.fail" then { e with awOk := false }
     else e
   | [] => e
 
@@ -471,6 +471,19 @@ def stepCore (e : Env) (line : String) : Env × String :=
       let sol : Solution := { G := G, F := F, nP := e.w.nP, nE := e.w.nE }
       let ev := (e.ev.afterSolve e.w sol).cacheSent e.w
       pure ({ e with ev := ev }, "ok " ++ showRat (scriptedDualObjective e.w))
+    | ["solve.okp", gs, fs] =>
+      -- `return_primal_or_dual="primal"`: same assignments (values, multipliers, caches); the value
+      -- returned is the objective of the solver's solution
+      let (_, e) ← runM e collect
+      let parseRow (r : String) : Option (List Rat) := if r.isEmpty then some [] else (r.splitOn ",").mapM parseRat
+      let some G := ((gs.drop 2).toString.splitOn ";").mapM parseRow | throw "bad G"
+      let some F := parseRow (fs.drop 2).toString | throw "bad F"
+      let sol : Solution := { G := G, F := F, nP := e.w.nP, nE := e.w.nE }
+      let ev := (e.ev.afterSolve e.w sol).cacheSent e.w
+      let objIdx : Nat := match e.w.objective with
+        | some h => (match e.w.exs[h]? with | some o => o.leaf.getD 0 | none => 0)
+        | none => 0
+      pure ({ e with ev := ev }, "ok " ++ showRat (F.getD objIdx 0))
     | ["solve.fail"] => let (_, e) ← runM e collect; pure (e, "ok")
     | ["eval.ex", x] =>
       let hx ← lookup e x
